@@ -7,7 +7,7 @@ matches in every context is decided (all texts) against a reference language wri
   WordContains / WordStartsWith / WordEndsWith(list): words that contain / start / end with one of the strings, literally.
 Digit alphabets for all 15 bases are decided completely; argument validation on a bounded sample of invalid tuples."""
 import random, re
-from .. import lang, rx2smt as R
+from .. import lang, vcrun, rx2smt as R
 from ..common import native, SEED
 from specs.build import B
 
@@ -88,6 +88,12 @@ def run(rep, tier):
                                  f"{len(affixes)} affix lists incl. metacharacters; per tuple complete over all texts; {len(bad)} invalid tuples",
                         "evaluations": len(jobs) + len(bad), "distinct_nontrivial": len(jobs), "rule": "distinct constructor calls"})
     rep.extra["translator_crosscheck"] = xc
+    # argument validation of the five constructors, for ALL integers / every argument kind (VCs; list arguments up to
+    # length 2, their contents arbitrary)
+    E = "pregex.meta.essentials."
+    vcrun.run_functions(rep, [E + c + ".__init__" for c in ("Numeral", "Word", "WordContains", "WordStartsWith", "WordEndsWith")], tier)
+    rep.assumptions.append("validation VCs: list arguments (infix / prefix / suffix) are enumerated up to length 2 with arbitrary "
+                           "contents; longer lists rest on the per-element loop being uniform")
     rep.trusted += ["R3, R4, R6, R7", "rx2smt translator (cross-checked against CPython each run)",
                     "z3 regex theory and the derivative-product procedure (must agree)", "reference regexes written from the documentation"]
     rep.assumptions += ["Unicode-only digits are excluded from the texts; \\w is CPython's Unicode word-character set on both sides"]
